@@ -31,6 +31,8 @@ type C05Data struct {
 	Sets   []C05Set `json:"sets"`
 	MaxLen int      `json:"max_len"`
 	Only   string   `json:"only,omitempty"` // replay: "key|method|target"
+	// EscapesOnly: judge only the requests of the escape-equivalence classes (C12's routing clause)
+	EscapesOnly bool `json:"escapes_only,omitempty"`
 }
 
 func init() { drivers["c05"] = runC05 }
@@ -356,6 +358,9 @@ func c05Set(r *ev.Run, d *C05Data, set *C05Set, idx int) error {
 		if d.Only != "" && d.Only != set.Key+"|"+q.Method+"|"+q.Target+q.Raw {
 			continue
 		}
+		if d.EscapesOnly && !(strings.HasPrefix(q.Class, "re-escaped") || q.Class == "malformed-rawpath" || strings.Contains(q.Target, "%") || q.Raw != "") {
+			continue
+		}
 		o := observe(srv, rec, q, "")
 		if o.Status == -1 {
 			continue // not a valid request-target; nothing was sent
@@ -598,7 +603,10 @@ func c05Set(r *ev.Run, d *C05Data, set *C05Set, idx int) error {
 					nonSlashTail = true
 				}
 			}
-			if rel := judge(true); nonSlashTail && len(rel) == 0 {
+			if rel := judge(true); nonSlashTail && len(rel) == 0 && d.EscapesOnly {
+				// slash-spanning parameters are C05's known finding, not a question of escape equivalence
+				r.Count("slash_spanning_parameter_outcomes_left_to_C05", 1)
+			} else if nonSlashTail && len(rel) == 0 {
 				viol("param-with-non-slash-tail-spans-slash", "route set has a parameter directly followed by a non-slash literal, and the outcome conforms only if parameters may contain '/': "+strict[0].sig+": "+strict[0].rule)
 			} else {
 				for _, v := range strict {
@@ -610,7 +618,7 @@ func c05Set(r *ev.Run, d *C05Data, set *C05Set, idx int) error {
 		restricted := lastRestricted
 
 		// 6. prefix
-		if qi%3 == 0 || d.Only != "" {
+		if qi%3 == 0 || d.Only != "" || d.EscapesOnly {
 			op := observe(srvP, recP, q, prefix)
 			if op.Status != -1 {
 				r.Eval(1)
@@ -618,6 +626,22 @@ func c05Set(r *ev.Run, d *C05Data, set *C05Set, idx int) error {
 					viol("panic", "with path prefix: "+op.Panic)
 				} else if op.Status != o.Status || op.Op != o.Op || !reflect.DeepEqual(op.Values, o.Values) || op.FindOK != o.FindOK || normAllow(op.Allow) != normAllow(o.Allow) {
 					viol("prefix-changes-routing", fmt.Sprintf("with WithPathPrefix(%q) and the prefix prepended: status %d op %q values %q find=%v", prefix, op.Status, op.Op, op.Values, op.FindOK))
+				}
+				// the prefix itself needlessly escaped (C12: equivalent re-escapings reach the same operation
+				// with the same arguments); the rest of the target keeps its own escapes
+				if !q.Hand {
+					qe := q
+					qe.Target = "/%7Aq%39" + q.Target
+					oe := observe(srvP, recP, qe, "")
+					if oe.Status != -1 {
+						r.Eval(1)
+						r.Count("class_prefix-re-escaped", 1)
+						if oe.Panic != "" {
+							viol("panic", "with re-escaped path prefix: "+oe.Panic)
+						} else if oe.Status != op.Status || oe.Op != op.Op || !reflect.DeepEqual(oe.Values, op.Values) || oe.FindOK != op.FindOK {
+							viol("prefix-re-escaped-changes-routing", fmt.Sprintf("prefix %q sent as %q: status %d op %q values %q find=%v, with the plain prefix: status %d op %q values %q find=%v", prefix, "/%7Aq%39", oe.Status, oe.Op, oe.Values, oe.FindOK, op.Status, op.Op, op.Values, op.FindOK))
+						}
+					}
 				}
 				// without the prefix in the request -> 404, handler not invoked
 				on := observe(srvP, recP, q, "")
